@@ -233,6 +233,83 @@ def gen_desc(rng, kind: str | None = None, *, poly_only: bool = True) -> dict:
     return desc
 
 
+def gen_branch_desc(rng) -> tuple[dict, list[int]]:
+    """A convertible model in which one rate law, derived value or state-dependent computed coefficient BRANCHES ON THE
+    SIGN of a model variable (or of a sum / product / difference of variables; one case in four: of a parameter -- negative in two cases
+    of three -- or of variable * parameter): harness/c12_fns ids 60..66
+    (`if v < 0`, conditional expressions, hand-written abs / rectifier / gate).  fn_to_sympy turns them into
+    Piecewise; the branch that is taken for a NEGATIVE argument is part of the right-hand side like any other.
+    -> (desc, state) with every state entry non-zero and the sign-tested variable negative in two cases of three
+    (oracle only: the Coq expression fragment is polynomial)."""
+    tab = c12_fns.table()
+    desc = gen_desc(rng, rng.choice(["plain", "plain", "shuffled", "dyn", "nopars"]))
+    varsn = [n for n, _ in desc["vars"]]
+    plain = [n for n, v in desc["pars"] if v[0] == "plain"]
+    dern = [d[0] for d in desc["der"]]
+    top = [max([n for n, _ in desc["vars"]] + [n for n, _ in desc["pars"]] + dern + [r[0] for r in desc["rxn"]] + [r[0] for r in desc["ro"]])]
+
+    def fresh() -> int:
+        top[0] += rng.randint(1, 3)
+        return top[0]
+
+    ders = [tuple(d) for d in desc["der"]]
+    rxns = [[r[0], r[1], list(r[2]), list(r[3])] for r in desc["rxn"]]
+    sv = rng.choice(varsn)
+    sign_arg = sv
+    how = rng.choice(["var", "var", "var", "sum", "prod", "diff"]) if len(varsn) >= 2 else "var"
+    if plain and rng.random() < 0.25:
+        how = rng.choice(["par", "par", "varpar"])  # the sign of a PARAMETER (or of variable * parameter) decides
+    if how == "par":
+        sign_arg = rng.choice(plain)
+        if rng.random() < 0.67:
+            # ... observed at a NEGATIVE value of that parameter in two cases of three
+            desc["pars"] = [(n, ("plain", -rng.randint(1, 3))) if n == sign_arg else (n, v) for n, v in desc["pars"]]
+    elif how == "varpar":
+        sign_arg = fresh()
+        ders.append((sign_arg, 23, [sv, rng.choice(plain)]))
+    elif how != "var":
+        # a derived value sympy can (sum / product of variables) or cannot (difference) sign from the variables
+        other = rng.choice([v for v in varsn if v != sv])
+        sign_arg = fresh()
+        ders.append((sign_arg, {"sum": 25, "prod": 23, "diff": 22}[how], [sv, other]))
+    fid = rng.choice(c12_fns.BRANCH_IDS)
+    pool = varsn + plain + dern
+    args = [sign_arg] + [rng.choice(pool) for _ in range(tab[fid][1] - 1)]
+    where = rng.choice(["rxn", "rxn", "der", "coef"])
+    if where == "rxn":
+        r = rng.choice(rxns)
+        r[1], r[2] = fid, args
+    elif where == "der":
+        n = fresh()
+        ders.append((n, fid, args))
+        r = rng.choice(rxns)
+        if r[2]:
+            r[2][rng.randrange(len(r[2]))] = n
+        else:
+            r[1], r[2] = 0, [n]  # f_id
+    else:
+        r = rng.choice(rxns)
+        i = rng.randrange(len(r[3]))
+        r[3][i] = (r[3][i][0], ("fun", fid, args))
+    if rng.random() < 0.5:
+        rng.shuffle(ders)
+    desc["der"] = ders
+    desc["rxn"] = [(r[0], r[1], r[2], r[3]) for r in rxns]
+    desc["kind"] = f"branch_{where}/{how}"
+    x = [rng.choice([-3, -2, -1, 1, 2, 3]) for _ in varsn]
+    if rng.random() < 0.67:
+        x[varsn.index(sv)] = -abs(x[varsn.index(sv)])
+    return desc, x
+
+
+def uses_branching(desc: dict) -> bool:
+    ids = set(c12_fns.BRANCH_IDS)
+    return (
+        any(d[1] in ids for d in desc["der"])
+        or any(r[1] in ids or any(c[0] == "fun" and c[1] in ids for _, c in r[3]) for r in desc["rxn"])
+    )
+
+
 # minimised past failures; they run first on every run: (desc, t, x, p2)
 CORPUS = [
     # a state-dependent computed coefficient on a reaction whose translated rate is a SymPy Integer
@@ -251,6 +328,17 @@ CORPUS = [
          "rxn": [(21, 29, [11, 13], [(11, ("num", Fraction(-1))), (12, ("fun", 24, [11]))])],
          "ro": [], "kind": "corpus/dyn"},
         1, [2, -1], {13: 2},
+    ),
+    # the demo of seeded change C12-4: a rectified leak `-g*V if V < 0 else 0` on a potential-like variable and a
+    # hand-written |V| in a coupling term, observed at V = -2 (oracle only: Piecewise is outside the Coq fragment)
+    (
+        {"vars": [(11, ("plain", -2)), (12, ("plain", 2))], "pars": [(13, ("plain", 3)), (14, ("plain", 1)), (15, ("plain", 2))], "data": [], "der": [],
+         "rxn": [(21, 60, [11, 13], [(11, ("num", Fraction(1)))]),
+                 (22, 63, [11, 12, 14], [(12, ("num", Fraction(-1)))]),
+                 (23, 20, [15], [(12, ("num", Fraction(1)))]),
+                 (24, 29, [12, 15], [(11, ("num", Fraction(-1, 2)))])],
+         "ro": [], "kind": "corpus/sign-branch"},
+        0, [-2, 2], None,
     ),
 ]
 
